@@ -20,13 +20,14 @@ type e1Case struct {
 	Roles []string
 	Extra string // extra source (declarations) for this case
 	// for non-type-driven cases (C13..C18) the registration is given verbatim
-	Funcs   map[string]string // role -> Go func literal source
-	Zero    string            // Go expression of (*T)(nil)
-	Tags    map[string]string
-	Group   string // cases sharing a non-empty group+AssignKey must not share a package
-	TestSrc string // source placed in an in-package _test.go file
-	Suspect bool   // expected to fail generation/compilation (listed finding): isolated in a package of its own
-	Key     string // for cases without Ty: cases with equal keys must not share a package
+	Funcs    map[string]string // role -> Go func literal source
+	Zero     string            // Go expression of (*T)(nil)
+	Tags     map[string]string
+	Group    string // cases sharing a non-empty group+AssignKey must not share a package
+	TestSrc  string // source placed in an in-package _test.go file
+	Isolated bool   // must be alone in its scenario package
+	Suspect  bool   // expected to fail generation/compilation (listed finding): isolated in a package of its own
+	Key      string // for cases without Ty: cases with equal keys must not share a package
 }
 
 // roleSrc returns the function literal for a role on type T.
@@ -77,7 +78,7 @@ func batchCases(cases []*e1Case, size int) []*e1Batch {
 	keysOf := []map[string]bool{}
 	window := 40
 	for _, c := range cases {
-		if c.Suspect {
+		if c.Suspect || c.Isolated {
 			batches = append(batches, &e1Batch{Name: fmt.Sprintf("b%04d", len(batches)), Cases: []*e1Case{c}})
 			keysOf = append(keysOf, map[string]bool{"\x00full": true})
 			continue
